@@ -200,6 +200,13 @@ def check(run: Run) -> None:
     assert A is not None
     gm = run.project.mod("core.gbnf_compiler")
     cm = run.project.mod("core.constraints")
+    # the validator's side of the agreement for ENUM / TYPE / DATE: the grammar offers every allowed value itself, so an exact
+    # member must be accepted as such (C08 R08.8), and the TYPE / DATE / ISO8601 acceptance conditions are the documented ones
+    run.rule("R13.8", "ENUM on the validator's side (= C08 R08.8): an exact member is accepted before any prefix matching - the grammar derives every allowed value verbatim, including one that is a prefix of another (DRAFT / DRAFT_REVIEW)", 2)
+    from . import c08 as _c08
+
+    _c08._learn_result_helpers(cm)
+    _c08._enum_shape(run, cm, "R13.8")
     run.rule("R13.1", "constant fragments: every text derivable from the BOOLEAN / NUMBER / DATE / ISO8601 fragment is read by the tokenizer model as exactly one token of the kind the constraint accepts (automata inclusion), and its content lies in the constraint's own language", 12)
     run.rule("R13.2", "CONST / ENUM: the text placed in the grammar for a value is produced by the emitter's emit_value (the one place that knows how to spell a value so the reader returns it unchanged) and then escaped for GBNF", 2)
     run.rule("R13.3", "compile_chain picks the rule of the most specific member in the documented order CONST > ENUM > REGEX > TYPE > DATE/ISO8601", 1)
